@@ -571,7 +571,8 @@ PROPS["C09"] = dict(_dbg(
 PROPS["C10"] = _dbg(
     ["Lace.C10.paused_machine_on_trajectory", "Lace.C10.stepInto_iter", "Lace.C10.continue_iter",
      "Lace.C10.stepOver_iter", "Lace.C10.stepOver_pauses", "Lace.C10.stepOut_iter", "Lace.C10.cmd_step",
-     "Lace.C10.cmd_stepInto", "Lace.C10.cmd_refused_at_halt", "Lace.C10.stepInto_exact"],
+     "Lace.C10.cmd_stepInto", "Lace.C10.cmd_refused_at_halt", "Lace.C10.stepInto_exact",
+     "Lace.C10.run_exact", "Lace.C10.continue_exact", "Lace.C10.stepOver_exact", "Lace.C10.stepOut_exact"],
     "generated programs and hand-written ones (self-loop, counted loop, recursive JSR and CALL subroutines, HALT in the "
     "middle, jumps to xFFFF / below origin / above user space, high origin) × random scripts over {step, step into k with "
     "k ∈ {0,1,2,3,7,65535}, step out, continue, break add/remove} ending in exit; verdict adv=same: the paused machine "
